@@ -262,7 +262,7 @@ def main(tier):
             continue
         fam, params = rec["family"], rec["params"]
         stateful = fam in STATEFUL
-        degenerate = fam == "Flip" and params["dims"] == [1]          # known finding C15-flip-len1: always exercised
+        degenerate = (fam == "Flip" and params["dims"] == [1]) or (fam == "Transpose" and params["axes"] == [0, 1])     # known findings: always exercised
         if not stateful and not degenerate and tier == "quick" and rec["id"] % 3:
             continue
         nconf += 1
@@ -278,9 +278,14 @@ def main(tier):
             for k in tot:
                 tot[k] += out["stats"][k]
             for p in out["problems"]:
-                if (fam == "Flip" and p["kind"] == "result aliases input" and params["dims"][params.get("axis", -1)] == 1
-                        and any(k["id"] == "C15-flip-len1" for k in known)):
-                    R.known_finding("C15-flip-len1", [k for k in known if k["id"] == "C15-flip-len1"][0]["what"])
+                kid = None
+                if p["kind"] == "result aliases input":
+                    if fam == "Flip" and params["dims"][params.get("axis", -1)] == 1:
+                        kid = "C15-flip-len1"
+                    elif fam == "Transpose" and list(params["axes"]) == sorted(params["axes"]):
+                        kid = "C15-transpose-identity"
+                if kid and any(k["id"] == kid for k in known):
+                    R.known_finding(kid, [k for k in known if k["id"] == kid][0]["what"])
                     continue
                 R.violation("%s %s: %s at call %s of the history (%s)" % (fam, params, p["kind"], p.get("step"), p.get("call")),
                             {"family": fam, "params": params, "rng_seed": seed_str, "length": length, "problem": p})
